@@ -151,6 +151,16 @@ def origins(body, start, opaque=None, follow_workspace=False, max_nodes=20000, s
             if isinstance(e, dict) and "idx" in e:
                 add_local(e["idx"])
         l = p["l"]
+        # a field of a CLONE of a struct value whose fields are known individually (`..base.clone()` in a struct literal): the
+        # clone is field-wise, so `clone(&base).f` is base.f
+        if p["p"] and isinstance(p["p"][0], dict) and "f" in p["p"][0] and not (1 <= l <= body.arg_count):
+            src = _clone_source(body, l)
+            if src is not None and _only_agg_defs(body, src):
+                key = (src, p["p"][0]["f"])
+                if key not in seen:
+                    seen.add(key)
+                    dq.append(key)
+                return
         # field-sensitive step for tuple / struct temporaries: `_t.1` follows only operand 1 of `_t = (a, b)`
         if p["p"] and isinstance(p["p"][0], dict) and "f" in p["p"][0] and ("upvar_of" not in p["p"][0] or l > body.arg_count) \
                 and not (1 <= l <= body.arg_count) and _only_agg_defs(body, l):
@@ -290,6 +300,23 @@ def origins(body, start, opaque=None, follow_workspace=False, max_nodes=20000, s
                 if j != pos:
                     add_op(a)
     return sl
+
+
+def _clone_source(body, l):
+    """M when local l is defined once, as `Clone::clone(&M)` / `to_owned(&M)` (possibly through one `&M` temporary)"""
+    ds = body.defs.get(l, [])
+    if len(ds) != 1 or ds[0][0] != "call":
+        return None
+    t = ds[0][3]
+    if strip_generics(t.get("fn") or "") not in ("core::clone::Clone::clone", "alloc::borrow::ToOwned::to_owned") or not t.get("args"):
+        return None
+    a = op_place(t["args"][0])
+    if a is None or a["p"]:
+        return None
+    rd = body.defs.get(a["l"], [])
+    if len(rd) == 1 and rd[0][0] == "stmt" and rd[0][3]["s"] == "assign" and rd[0][3]["rv"]["k"] == "ref" and not rd[0][3]["rv"]["place"]["p"]:
+        return rd[0][3]["rv"]["place"]["l"]
+    return None
 
 
 def _only_agg_defs(body, l):
